@@ -18,6 +18,8 @@ let read_fv c = next_list c read_bf
 let tol6 = q_of_ints 1 1000000
 let tol5 = q_of_ints 1 100000
 let coef_tol = q_of_ints 1 1000000000000
+let tol9 = q_of_ints 1 1000000000
+let rel_lp = q_of_ints 1 1000000000
 
 (* ---------- rows in a comparable normal form: (rel, rhs, [(col, coef)] sorted, zeros dropped) ---------- *)
 type nrow = { nrel : int (* 0 = Eq, 1 = Le, 2 = other *); nrhs : q; ncoefs : (int * q) list }
@@ -141,14 +143,15 @@ let judge_mlp_call (c : cursor) (r : cursor) : bool * string =
     let s = next_nats c in
     let a = next_nats c in
     let ns_f = List.length s in
-    (* parent sets and transition matrices are consumed by the harness only (flat P comes back) *)
-    for _ = 1 to ns_f do
-      let _ = next_nats c in let _ = next_list c next_nats in ()
-    done;
-    for _ = 1 to ns_f do
+    (* the DDN of the case (parent sets + conditional probability tables): the transition probability
+       the Bellman form is stated with is C14's model of getTransitionProbability on THESE inputs —
+       the exact product of the per-node entries — not what the implementation's accessor returns *)
+    let pss = List.init ns_f (fun _ -> let ag = next_nats c in let fs = next_list c next_nats in { psAgents = ag; psFeatures = fs }) in
+    let tm = List.init ns_f (fun _ ->
       let rows = next_int c in let cols = next_int c in
-      for _ = 1 to rows * cols do ignore (next c) done
-    done;
+      List.init rows (fun _ -> List.init cols (fun _ -> next_q c))) in
+    let ddn = List.fold_left (fun g ps -> match graph_push g ps with PushOk g' -> g' | _ -> failwith "generator: DDN parent set rejected by the model")
+        (graph_new s a) pss in
     let read_bm cur =
       let tag = next_nats cur in let atag = next_nats cur in
       let rows = next_int cur in let cols = next_int cur in
@@ -188,14 +191,33 @@ let judge_mlp_call (c : cursor) (r : cursor) : bool * string =
     let clause = if nfin >= 2 && orig_form then "mdp_lp_eq_flat_multi_component" else "mdp_lp_eq_flat" in
     let states = Array.of_list (all_assign_idx s) in
     if Array.length states <> ns then failwith "state count";
-    let hval kk st = entry s (List.nth h kk) states.(st) in
+    let acts0 = Array.of_list (all_assign_idx a) in
+    if Array.length acts0 <> na then failwith "action count";
+    let hv = Array.init k (fun kk -> Array.init ns (fun st -> entry s (List.nth h kk) states.(st))) in
+    let hval kk st = hv.(kk).(st) in
+    (* exact joint transition probabilities from the case's tables *)
+    let p_impl = p in
+    let p = Array.make (ns * na * ns) q_zero in
+    for st = 0 to ns - 1 do for ac = 0 to na - 1 do for s1 = 0 to ns - 1 do
+      p.((st * na + ac) * ns + s1) <- vio_qred (getTransitionProbability ddn tm states.(st) acts0.(ac) states.(s1))
+    done done done;
+    (* exact g_k(s,a) = sum_s1 P h_k: is some entry non-zero but within the code's 1e-6 sparsity skip?
+       (then bf_exact / bm_exact of mdp_lp_eq_flat do not hold and the LP clauses are not judged) *)
+    let tiny_g = ref false in
+    for kk = 0 to k - 1 do for st = 0 to ns - 1 do for ac = 0 to na - 1 do
+      let t = ref q_zero in
+      for s1 = 0 to ns - 1 do t := q_add !t (q_mul p.((st * na + ac) * ns + s1) (hval kk s1)) done;
+      let gv = q_abs (vio_qred !t) in
+      if q_lt q_zero gv && q_le gv tol6 then tiny_g := true
+    done done done;
+    let tiny_g = !tiny_g in
     let mean kk = let t = ref q_zero in for st = 0 to ns - 1 do t := q_add !t (hval kk st) done; vio_qdiv !t (q_of_int ns) in
     (* ---- O ---- *)
     if fok then begin
       (* lp_solve result codes: 2 = INFEASIBLE, 3 = UNBOUNDED are statements about the system;
          anything else (5 NUMFAILURE, 25 ACCURACYERROR, ...) is the solver giving up: outside the
          property (trusted base); the system itself is still compared row by row below *)
-      if not solved && (res = 2 || res = 3) then oracle_fail clause site
+      if not solved && (res = 2 || res = 3) && not tiny_g then oracle_fail clause site
           (Printf.sprintf "the factored LP is reported %s although the flat LP over all (s,a) has optimum %s"
              (if res = 2 then "infeasible" else "unbounded") (string_of_q fobj));
       if solved then begin
@@ -206,26 +228,45 @@ let judge_mlp_call (c : cursor) (r : cursor) : bool * string =
         let t = ref q_zero in
         for s1 = 0 to ns - 1 do t := q_add !t (q_mul p.((st * na + ac) * ns + s1) v.(s1)) done;
         vio_qred (q_add rf.(st * na + ac) (q_mul gam !t)) in
+      (* magnitude of the terms of the backup (tolerances are relative to it: lp_solve and the double
+         arithmetic of Q are accurate relative to the sizes involved, not absolutely) *)
+      let vabs = Array.init ns (fun st -> let t = ref q_zero in for kk = 0 to k - 1 do t := q_add !t (q_abs (q_mul wa.(kk) (hval kk st))) done; vio_qred !t) in
+      let backup_abs st ac =
+        let t = ref q_zero in
+        for s1 = 0 to ns - 1 do t := q_add !t (q_mul p.((st * na + ac) * ns + s1) vabs.(s1)) done;
+        vio_qred (q_add (q_abs rf.(st * na + ac)) (q_mul gam !t)) in
+      if not tiny_g then
       for st = 0 to ns - 1 do for ac = 0 to na - 1 do
-        if not (q_le (backup st ac) (q_add v.(st) tol6)) then
+        let tolb = q_add tol6 (q_mul rel_lp (q_add vabs.(st) (backup_abs st ac))) in
+        if not (q_le (backup st ac) (q_add v.(st) tolb)) then
           oracle_fail clause site (Printf.sprintf "V_w(s) >= R + gamma P V_w violated at state %d action %d: %s < %s" st ac (string_of_q v.(st)) (string_of_q (backup st ac)))
       done done;
       let obj = let t = ref q_zero in for kk = 0 to k - 1 do t := q_add !t (q_mul wa.(kk) (mean kk)) done; !t in
-      if not (q_le obj (q_add fobj tol5)) then
+      let tolo = q_mul tol5 (q_max q_one (q_max (q_abs obj) (q_abs fobj))) in
+      if not tiny_g && not (q_le obj (q_add fobj tolo)) then
         oracle_fail clause site (Printf.sprintf "objective %s of the factored LP's weights above the flat optimum %s" (string_of_q obj) (string_of_q fobj));
-      if not (q_le fobj (q_add obj tol5)) then
+      if not tiny_g && not (q_le fobj (q_add obj tolo)) then
         disagree "flat_reference" "LP::solve" (Printf.sprintf "flat optimum %s above the objective %s of feasible factored weights" (string_of_q fobj) (string_of_q obj));
       (* returned Q-function = R + gamma * P V_w at every (s,a) *)
       let qa = Array.of_list qv in
       if Array.length qa <> ns * na then oracle_fail "q_is_backup" "LinearProgramming::operator()" "wrong Q size";
       for st = 0 to ns - 1 do for ac = 0 to na - 1 do
-        if not (q_close qa.(st * na + ac) (backup st ac)) then
+        let tolq = q_mul tol9 (q_add q_one (backup_abs st ac)) in
+        if not (q_le (q_abs (q_sub qa.(st * na + ac) (backup st ac))) tolq) then
           oracle_fail "q_is_backup" "LinearProgramming::operator()"
             (Printf.sprintf "Q(%d,%d) = %s but R + gamma P V_w = %s" st ac (string_of_q qa.(st * na + ac)) (string_of_q (backup st ac)))
       done done
       end
     end;
     (* ---- C ---- *)
+    (* the model's accessor getTransitionProbability(Factors) against its C14 model on the case's tables
+       (sequential product of dyadic entries: exact in double as long as it fits 53 bits) *)
+    for i = 0 to ns * na * ns - 1 do
+      if not (q_close ~atol:q_zero ~rtol:coef_tol p_impl.(i) p.(i)) then
+        disagree "transition_probability" "DDN::getTransitionProbability"
+          (Printf.sprintf "P(s1=%d | s=%d, a=%d): implementation %s, product of the per-node entries %s"
+             (i mod ns) (i / (na * ns)) ((i / ns) mod na) (string_of_q p_impl.(i)) (string_of_q p.(i)))
+    done;
     (* the returned Q-function against its model (C15.ModelQ.lp_result_q with g taken from the real
        backProject): operator*=(discount * v) then plusEqual(…, R), C14's models; compared through the
        flat value at every joint (s, a) (theorem q_is_backup is about this model) *)
@@ -254,7 +295,7 @@ let judge_mlp_call (c : cursor) (r : cursor) : bool * string =
     end;
     (fok && solved && (ns_f > 1 || List.length a > 1),
      (if not fok then "mlp-flat-unsolved" else if not solved then "mlp-solver-gave-up" else if nfin >= 2 then "mlp-multi" else "mlp")
-     ^ (if orig_form then "-origrows" else ""))
+     ^ (if orig_form then "-origrows" else "") ^ (if tiny_g then "-tinyg" else ""))
 
 (* a sequence of calls on ONE object: every call is judged exactly like a call on a fresh object *)
 let judge_calls (n : int) (tag : string) (r : cursor) (one : unit -> bool * string) : bool * string =
